@@ -421,6 +421,8 @@ def inert_site(rng):
         for r in dd["recipes"]:
             k += 1
             r["title"] = RECIPE_TITLES[k % len(RECIPE_TITLES)] + " " + str(rng.randint(0, 99))
+    if d["readme"] is None:
+        d["readme"] = dict(file="README.md", title=RECIPE_TITLES[(k + 7) % len(RECIPE_TITLES)], links=[])
     # every kind of title at least once per site
     extra = [t for t in RECIPE_TITLES if not any(r["title"].startswith(t) for _, dd in gen_site.walk(d) for r in dd["recipes"])]
     for i, t in enumerate(extra):
@@ -465,6 +467,11 @@ def check_inert(d, M):
                     cands = {" ".join(t.split()) for t in titles} | {_d2t(dd["name"]) for _, dd in gen_site.walk(d)} | {_d2t(src.name), "Categories"} | {"Recipes for %d" % i for i in range(1, M + 1)}
                     if " - " in shown and not any(shown.startswith(c + " - ") or shown.startswith(c + " for ") or shown.startswith(c + " ") for c in cands if c):
                         out.append(("C10:page-title-text-differs", "%s: <title> %r is not a title of the site" % (f, shown)))
+                    # the home page's <title> is the site's name itself: the root readme's title, else the directory's
+                    if f == "/index.html":
+                        site_name = " ".join(plain_title(d["readme"]["title"]).split()) if d["readme"] else _d2t(src.name)
+                        if shown != site_name:
+                            out.append(("C10:page-title-text-differs", "/index.html: <title> %r, the site is called %r" % (shown, site_name)))
             # breadcrumb labels and list entries are titles character for character
             for n in root.iter():
                 if n.tag == "a" and n.parent is not None and n.parent.tag == "li":
